@@ -126,6 +126,15 @@ def replay_wide(case) -> dict:
         if abs(out[L] - want) > 1e-4:
             fails.append(dict(desc, clause="ShellValue", shell=L, observed=float(out[L]), expected=want, nbins=int(msk.sum())))
             break
+    if not fails:
+        # detector-count amplitudes on realistic boxes (exact powers of two: the scaled spectra are exactly the scaled originals)
+        for ka, kb in ((22, 22), (-22, -20), (27, 0)):
+            _, g = engine.api(fsc, (a * np.float32(2.0**ka)).astype(np.float32), (b * np.float32(2.0**kb)).astype(np.float32), df)
+            g = np.asarray(g, dtype=np.float64)
+            ok = np.isfinite(out)
+            if g.shape != out.shape or not np.array_equal(np.isfinite(g), ok) or float(np.max(np.abs(g[ok] - out[ok]), initial=0.0)) > 1e-5:
+                fails.append(dict(desc, clause="GainInvariant", gains_log2=[ka, kb]))
+                break
     return dict(failures=fails, classes={"wide_shells_checked": nchk})
 
 
